@@ -46,8 +46,10 @@ pub fn clone_mem(m: &MemStore) -> MemStore {
     mem_from(unsafe { (*m.data.get()).clone() })
 }
 
+/// Injected storage failures look like real ones: rusqlite / I/O errors reach callers as
+/// `Error::Other`.
 pub fn sim_err(what: &str) -> Error {
-    Error::Database(format!("sim: injected fault at {what}"))
+    Error::Other(anyhow::anyhow!("sim: injected fault at {what}"))
 }
 
 pub fn is_sim_err(e: &Error) -> bool {
